@@ -18,12 +18,14 @@ rmdir "$WT"; git -C /repo worktree add --detach -q "$WT" "$BASE" || exit 3
 DIFF="$SRC/patch.diff"; demo="$SRC/demo_test.go.txt"
 echo "seedconfirm: $SRC demo dest=$DEST pattern=$PAT $RFLAG"
 
-stage_root() { # the legacy package has no go.mod: stage it
-  rm -rf "$ST/l"; mkdir -p "$ST/l"; cp "$WT"/*.go "$ST/l/"
+stage_root() { # the legacy package has no go.mod: stage it (with its command)
+  rm -rf "$ST/l"; mkdir -p "$ST/l/cmd/json-patch"; cp "$WT"/*.go "$ST/l/"; cp "$WT"/cmd/json-patch/*.go "$ST/l/cmd/json-patch/"
   printf 'module github.com/evanphx/json-patch\n\ngo 1.18\n\nrequire github.com/jessevdk/go-flags v1.6.1\n' > "$ST/l/go.mod"; cp "$WT/v5/go.sum" "$ST/l/"
 }
 run_demo() {
-  if [ "$DEST" = "." ]; then
+  if [ "$DEST" = "cmd/json-patch" ]; then
+    stage_root; cp "$demo" "$ST/l/cmd/json-patch/zz_seed_demo_test.go"; (cd "$ST/l" && go test -vet=off -count=1 -run "$PAT" ./cmd/json-patch/ 2>&1 | tail -15; exit ${PIPESTATUS[0]})
+  elif [ "$DEST" = "." ]; then
     stage_root; cp "$demo" "$ST/l/zz_seed_demo_test.go"; (cd "$ST/l" && go test -vet=off -count=1 -run "$PAT" . 2>&1 | tail -15; exit ${PIPESTATUS[0]})
   else
     cp "$demo" "$WT/$DEST/zz_seed_demo_test.go"; (cd "$WT/$DEST" && go test -vet=off -count=1 $RFLAG -run "$PAT" . 2>&1 | tail -15; exit ${PIPESTATUS[0]}); rc=$?
